@@ -308,7 +308,8 @@ def parse_model_parse(tokens):
     """tokens after 'ok' of a parse answer -> dict comparable with parse_packet()"""
     d = dict(_kv(t) for t in tokens)
     return {'res': 'ok', 'values': d['P'], 'SC': _hexlist(d['SC']), 'SV': None if d['SV'] == '~' else ('' if d['SV'] == '-' else d['SV']),
-            'DC': _hexlist(d['DC']), 'DV': None if d['DV'] == '~' else ('' if d['DV'] == '-' else d['DV'])}
+            'DC': _hexlist(d['DC']), 'DV': None if d['DV'] == '~' else ('' if d['DV'] == '-' else d['DV']),
+            'PC': d.get('PC') == '1'}
 
 
 def parse_model_answer(ans):
